@@ -21,6 +21,8 @@ RULE = (
     'identical class - also when made in another thread -, flattened() must keep the leaves and their order, also when the same failure object or nested group occurs more than once in the tree. non-trivial = pair with '
     '>= 2 distinct child types or a nested child; distinct = (raised types, handler)'
 )
+RULE = RULE + (' Further: the empty multiset / Concurrent[()], `...` in every position, identity across simulations and threads, classes with colliding hashes, leaves with group-like attributes or a false truth value.')
+
 LEVEL_TEXT = (
     'Exhaustive runtime comparison of the real isinstance / issubclass / except behaviour with '
     'a reference predicate written from the statement, over the complete finite space of the '
